@@ -80,8 +80,9 @@ fn fnv_f64(h: &mut u64, x: f64) {
 
 pub struct MirrorWorld<K: Kit> {
     pub obstacles: Vec<Pred>,
-    pub calls: Cell<u64>,
-    pub hash: Cell<u64>,
+    /// shared between the checkers of one history (the trace is cumulative)
+    pub calls: std::rc::Rc<Cell<u64>>,
+    pub hash: std::rc::Rc<Cell<u64>>,
     _k: std::marker::PhantomData<K>,
 }
 impl<K: Kit> StateValidityChecker<K::S> for MirrorWorld<K> {
@@ -142,6 +143,11 @@ pub struct PyScenario {
     pub prm_timeout: f64,
     pub seed: u64,
     pub timeout_secs: f32,
+    /// API calls made on ONE planner object: "setup", "setup2" (second validity callback),
+    /// "construct", "solve"
+    pub history: Vec<&'static str>,
+    /// obstacles of the second validity callback
+    pub obstacles2: Vec<Pred>,
 }
 
 fn spec_json(spec: &Spec) -> Value {
@@ -171,6 +177,7 @@ impl PyScenario {
             "obstacles": self.obstacles.iter().map(|p| p.json()).collect::<Vec<_>>(),
             "planner": self.planner, "step": self.step, "bias": self.bias, "radius": self.radius, "prm_timeout": self.prm_timeout,
             "seed": self.seed, "timeout_secs": self.timeout_secs as f64,
+            "history": self.history, "obstacles2": self.obstacles2.iter().map(|p| p.json()).collect::<Vec<_>>(),
         })
     }
 }
@@ -179,56 +186,86 @@ fn err_text(e: &PlanningError) -> String {
     e.to_string()
 }
 
-/// The Rust core's own result for a scenario (same seed, parameters, callbacks, logical clock).
+enum AnyPlanner<K: Kit> {
+    Rrt(RRT<K::S, K::SP, MirrorGoal<K>>),
+    Star(RRTStar<K::S, K::SP, MirrorGoal<K>>),
+    Connect(RRTConnect<K::S, K::SP, MirrorGoal<K>>),
+    Prm(PRM<K::S, K::SP, MirrorGoal<K>>),
+}
+
+/// The Rust core's own results for a scenario: the same seed, parameters, callbacks, logical clock
+/// and the same history of API calls on one planner object. One entry per `solve` call.
 pub fn core_result<K: Kit>(sc: &PyScenario) -> Value {
     oxmpl::verif::clock_reset(1_000_000);
     let space = Arc::new(K::build(&sc.spec));
-    let world = Arc::new(MirrorWorld::<K> { obstacles: sc.obstacles.clone(), calls: Cell::new(0), hash: Cell::new(0xcbf29ce484222325), _k: std::marker::PhantomData });
+    let calls = std::rc::Rc::new(Cell::new(0u64));
+    let hash = std::rc::Rc::new(Cell::new(0xcbf29ce484222325u64));
+    let world = Arc::new(MirrorWorld::<K> { obstacles: sc.obstacles.clone(), calls: calls.clone(), hash: hash.clone(), _k: std::marker::PhantomData });
+    let world2 = Arc::new(MirrorWorld::<K> { obstacles: sc.obstacles2.clone(), calls: calls.clone(), hash: hash.clone(), _k: std::marker::PhantomData });
     let goal = Arc::new(MirrorGoal::<K> { preds: sc.goal_preds.clone(), samples: sc.goal_samples.iter().map(K::from_v).collect(), sample_calls: Cell::new(0), pred_calls: Cell::new(0) });
     let pd = Arc::new(ProblemDefinition { space, start_states: vec![K::from_v(&sc.start)], goal: goal.clone() });
     let cfg = PlannerConfig { seed: Some(sc.seed) };
-    let vc: Arc<dyn StateValidityChecker<K::S>> = world.clone();
     let t = Duration::from_secs_f32(sc.timeout_secs);
-    let res: Result<Vec<K::S>, PlanningError> = match sc.planner {
-        "RRT" => {
-            let mut p = RRT::new(sc.step, sc.bias, &cfg);
-            p.setup(pd, vc);
-            p.solve(t).map(|x| x.0)
-        }
-        "RRTStar" => {
-            let mut p = RRTStar::new(sc.step, sc.bias, sc.radius, &cfg);
-            p.setup(pd, vc);
-            p.solve(t).map(|x| x.0)
-        }
-        "RRTConnect" => {
-            let mut p = RRTConnect::new(sc.step, sc.bias, &cfg);
-            p.setup(pd, vc);
-            p.solve(t).map(|x| x.0)
-        }
-        "PRM" => {
-            let mut p = PRM::new(sc.prm_timeout, sc.step, &cfg);
-            p.setup(pd, vc);
-            match p.construct_roadmap() {
-                Ok(()) => p.solve(t).map(|x| x.0),
-                Err(e) => Err(e),
-            }
-        }
+    let mut p: AnyPlanner<K> = match sc.planner {
+        "RRT" => AnyPlanner::Rrt(RRT::new(sc.step, sc.bias, &cfg)),
+        "RRTStar" => AnyPlanner::Star(RRTStar::new(sc.step, sc.bias, sc.radius, &cfg)),
+        "RRTConnect" => AnyPlanner::Connect(RRTConnect::new(sc.step, sc.bias, &cfg)),
+        "PRM" => AnyPlanner::Prm(PRM::new(sc.prm_timeout, sc.step, &cfg)),
         _ => unreachable!(),
     };
-    let (result, path) = match &res {
-        Ok(p) => (
-            "ok".to_string(),
-            p.iter()
-                .map(|s| {
-                    let mut x = Vec::new();
-                    flatten(&K::to_v(s), &mut x);
-                    x.iter().map(|c| c.to_bits()).collect::<Vec<u64>>()
-                })
-                .collect::<Vec<_>>(),
-        ),
-        Err(e) => (err_text(e), vec![]),
-    };
-    json!({"result": result, "path_bits": path, "valid_calls": world.calls.get(), "valid_hash": world.hash.get(), "goal_pred_calls": goal.pred_calls.get(), "goal_sample_calls": goal.sample_calls.get()})
+    let mut out_calls: Vec<Value> = Vec::new();
+    // the Python wrapper raises on a failed construct_roadmap; the history ends there
+    let mut aborted = false;
+    for op in &sc.history {
+        if aborted {
+            break;
+        }
+        match *op {
+            "setup" | "setup2" => {
+                let vc: Arc<dyn StateValidityChecker<K::S>> = if *op == "setup" { world.clone() } else { world2.clone() };
+                match &mut p {
+                    AnyPlanner::Rrt(x) => x.setup(pd.clone(), vc),
+                    AnyPlanner::Star(x) => x.setup(pd.clone(), vc),
+                    AnyPlanner::Connect(x) => x.setup(pd.clone(), vc),
+                    AnyPlanner::Prm(x) => x.setup(pd.clone(), vc),
+                }
+            }
+            "construct" => {
+                if let AnyPlanner::Prm(x) = &mut p {
+                    oxmpl::verif::clock_reset(1_000_000);
+                    if let Err(e) = x.construct_roadmap() {
+                        out_calls.push(json!({"result": err_text(&e), "path_bits": []}));
+                        aborted = true;
+                    }
+                }
+            }
+            "solve" => {
+                oxmpl::verif::clock_reset(1_000_000);
+                let res: Result<Vec<K::S>, PlanningError> = match &mut p {
+                    AnyPlanner::Rrt(x) => x.solve(t).map(|x| x.0),
+                    AnyPlanner::Star(x) => x.solve(t).map(|x| x.0),
+                    AnyPlanner::Connect(x) => x.solve(t).map(|x| x.0),
+                    AnyPlanner::Prm(x) => x.solve(t).map(|x| x.0),
+                };
+                let (result, path) = match &res {
+                    Ok(p) => (
+                        "ok".to_string(),
+                        p.iter()
+                            .map(|s| {
+                                let mut x = Vec::new();
+                                flatten(&K::to_v(s), &mut x);
+                                x.iter().map(|c| c.to_bits()).collect::<Vec<u64>>()
+                            })
+                            .collect::<Vec<_>>(),
+                    ),
+                    Err(e) => (err_text(e), vec![]),
+                };
+                out_calls.push(json!({"result": result, "path_bits": path}));
+            }
+            other => panic!("unknown history op {other}"),
+        }
+    }
+    json!({"calls": out_calls, "valid_calls": calls.get(), "valid_hash": hash.get(), "goal_pred_calls": goal.pred_calls.get(), "goal_sample_calls": goal.sample_calls.get()})
 }
 
 fn quat(axis: [f64; 3], deg: f64) -> [f64; 4] {
@@ -343,7 +380,7 @@ pub fn scenarios(tier: &str) -> Vec<PyScenario> {
                 for (pi, (sm, bias, rm, its)) in psets.iter().enumerate() {
                     for &seed in &seeds {
                         let step = v.unit * sm * if planner == "PRM" { 3.0 } else { 1.0 };
-                        out.push(PyScenario {
+                        let base = PyScenario {
                             id: format!("{}/{}/w{wi}/p{pi}/s{seed}", v.kit, planner),
                             kit: v.kit,
                             spec: v.spec.clone(),
@@ -359,7 +396,39 @@ pub fn scenarios(tier: &str) -> Vec<PyScenario> {
                             prm_timeout: (*its as f64 - 0.5) * 1e-3,
                             seed,
                             timeout_secs: if planner == "PRM" { 10.0 } else { ((*its as f64) - 0.5) as f32 * 1e-3 },
-                        });
+                            history: if planner == "PRM" { vec!["setup", "construct", "solve"] } else { vec!["setup", "solve"] },
+                            obstacles2: v.worlds[(wi + 1) % v.worlds.len()].clone(),
+                        };
+                        out.push(base.clone());
+                        // histories on one planner object (first parameter set only): a second solve, and
+                        // a re-setup with a different validity callback followed by a solve
+                        if pi == 0 {
+                            let hs: Vec<(&str, Vec<&'static str>)> = if planner == "PRM" {
+                                vec![("h-solve-solve", vec!["setup", "construct", "solve", "solve"]), ("h-resetup", vec!["setup", "construct", "solve", "setup2", "construct", "solve"]), ("h-construct-twice", vec!["setup", "construct", "construct", "solve"])]
+                            } else {
+                                vec![("h-solve-solve", vec!["setup", "solve", "solve"]), ("h-resetup", vec!["setup", "solve", "setup2", "solve", "solve"]), ("h-setup-twice", vec!["setup", "setup2", "solve"])]
+                            };
+                            for (hn, h) in hs {
+                                let mut x = base.clone();
+                                x.id = format!("{}/{hn}", base.id);
+                                x.history = h;
+                                out.push(x);
+                            }
+                            // the robot already stands in the goal: the goal sampler returns the start itself
+                            if wi == 0 {
+                                for (dn, b) in [("at-goal-bias1", 1.0), ("at-goal-bias0.5", 0.5)] {
+                                    let mut x = base.clone();
+                                    x.id = format!("{}/{dn}", base.id);
+                                    x.start = v.goal_samples[0].clone();
+                                    x.goal_samples = vec![v.goal_samples[0].clone()];
+                                    x.bias = b;
+                                    if planner != "PRM" {
+                                        x.history = vec!["setup", "solve", "solve"];
+                                    }
+                                    out.push(x);
+                                }
+                            }
+                        }
                     }
                 }
             }
@@ -455,7 +524,7 @@ fn py_env() -> (String, String) {
 /// their reports.
 fn run_driver(mode: &str, input: &Value, rep: &mut Report) -> Option<Value> {
     let scs = input["scenarios"].as_array().cloned().unwrap_or_default();
-    let n = 12usize.min(scs.len().max(1));
+    let n = 16usize.min(scs.len().max(1));
     let chunks: Vec<Value> = (0..n)
         .map(|i| {
             let mut part = input.clone();
@@ -599,7 +668,7 @@ pub fn run_c19(tier: &'static str) -> i32 {
     if cases.iter().any(|c| c.get("nondeterministic_core").is_some()) {
         rep.engine_error("the Rust core gave two different results for the same scenario".into());
     }
-    let ok = cases.iter().filter(|c| c["expected"]["result"] == "ok").count();
+    let ok = cases.iter().map(|c| c["expected"]["calls"].as_array().map(|a| a.iter().filter(|x| x["result"] == "ok").count()).unwrap_or(0)).sum::<usize>();
     rep.count("core_paths", ok as u64);
     let input = json!({"tier": tier, "scenarios": cases, "wrappers": wrapper_cases()});
     if let Some(r) = run_driver("c19", &input, &mut rep) {
@@ -618,7 +687,7 @@ pub fn run_c19(tier: &'static str) -> i32 {
         exhaustive: true,
         bounds: json!({"scenarios": scs.len()}),
         assumptions: vec!["Python floats are IEEE doubles and the callbacks use only +, -, *, abs and comparisons in a fixed order".into(), "the extension is the cdylib built from /repo with --features oxmpl/verif".into()],
-        must_be_positive: vec!["scenarios_compared", "paths_compared_bitwise", "prm_paths_checked_sound", "wrapper_cases", "wrapper_errors_expected", "validity_calls_compared"],
+        must_be_positive: vec!["scenarios_compared", "paths_compared_bitwise", "prm_paths_checked_sound", "wrapper_cases", "wrapper_errors_expected", "validity_calls_compared", "multi_call_histories_compared", "paths_with_repeated_final_state"],
     };
     finish(&meta, rep, t0)
 }
@@ -626,7 +695,7 @@ pub fn run_c19(tier: &'static str) -> i32 {
 pub fn run_c20(tier: &'static str) -> i32 {
     let t0 = Instant::now();
     let mut rep = Report::new();
-    let scs: Vec<PyScenario> = scenarios(tier).into_iter().filter(|s| s.id.contains("/w1/") && s.id.contains("/p0/")).collect();
+    let scs: Vec<PyScenario> = scenarios(tier).into_iter().filter(|s| s.id.contains("/w1/") && s.id.contains("/p0/") && (!s.id.contains("/h-") || s.id.ends_with("/h-resetup")) && !s.id.contains("/at-goal")).collect();
     rep.count("scenarios", scs.len() as u64);
     let input = json!({"tier": tier, "scenarios": scs.iter().map(|s| s.json()).collect::<Vec<_>>(), "k_max": if tier == "quick" { 8 } else { 12 }});
     if let Some(r) = run_driver("c20", &input, &mut rep) {
@@ -642,7 +711,7 @@ pub fn run_c20(tier: &'static str) -> i32 {
         exhaustive: true,
         bounds: json!({"scenarios": scs.len()}),
         assumptions: vec!["the JS binding implements the same policy (as_bool().unwrap_or(false)) but cannot be executed here: no wasm32 target is installed; that half of the anchor is covered by inspection only".into()],
-        must_be_positive: vec!["fault_runs", "faults_reached", "fault_runs_with_path"],
+        must_be_positive: vec!["fault_runs", "faults_reached", "fault_runs_with_path", "fault_runs_goal_with_distance_goal"],
     };
     // the schema wants distinct_nontrivial >= 2 for fault_enumeration
     let d = rep.get("faults_reached");
